@@ -44,7 +44,7 @@ def main() -> int:
         traceback.print_exc()
         frames = traceback.extract_tb(e.__traceback__)
         src = str(Path(SRC).resolve())
-        if frames and str(Path(frames[-1].filename).resolve()).startswith(src):
+        if any(str(Path(f.filename).resolve()).startswith(src) for f in frames):
             # the IMPLEMENTATION raised on an input that it accepts on the unchanged tree (all checks complete
             # there for every seed): the property is no longer shown to hold; the replay names where it raised
             import json
